@@ -30,6 +30,8 @@ def run(ctx: Ctx) -> None:
     _eff.rule_weighted_fidelity(ctx)
     _eff.rule_pauli_tags(ctx)
     _eff.rule_saturating_strength(ctx)
+    from ..rules import shapes as _shp
+    _shp.rule_trace_distance_shape(ctx)   # 'same fidelity with any pure target' goes through dmf.fidelity's pure-state shortcut
     from .c17 import rule_metric_value
     rule_metric_value(ctx)  # Infidelity.evaluate: 1 - F, and the representation literals of its dispatch
     from .c07 import rule_wrappers
